@@ -44,6 +44,7 @@ class Contract:
         self.ghost_in = kw.pop("ghost_in", {})      # extra ghost parameters (name -> type)
         self.instantiate = kw.pop("instantiate", [])  # extra ground lemma instances: list of expr texts (valid formulas only: lemma names)
         self.max_paths = kw.pop("max_paths", 400)
+        self.ignored_keywords = kw.pop("ignored_keywords", [])   # keyword arguments of an external the contract does not model
         self.heap_independent = kw.pop("heap_independent", False)  # pure and reads no mutable state: a function of its arguments
         if kw:
             raise TypeError("unknown contract keys %s for %s" % (sorted(kw), name))
